@@ -7,7 +7,7 @@ C02 — how a constrained type is *declared* and what its parse then checks, bey
   rule.py:840-873) — own body, every base, every level, `Rule.annotate(...)` (which is `LogicalType(name, (cls,),
   attrs)`, rule.py:1427-1440) and `Field(...)` constraints (which reach `Rule.annotate(constraints=…)` through
   `parse_annotation`, rule.py:1520-1544).
-* `Rule._parse_contains` (rule.py:1815-1854): `contains` / `min_contains` / `max_contains` are enforced *outside*
+* `Rule._parse_contains` (rule.py:1826-1867): `contains` / `min_contains` / `max_contains` are enforced *outside*
   `__validators__`.
 * `Rule.parse` (rule.py:1689-1760) on a value that already has the origin type: args parser, validator loop,
   contains, `post_validate` hook.
@@ -61,7 +61,7 @@ def countLoop (acc : PyVal → Bool) : List PyVal → Nat → Nat
   | [], n => n
   | x :: xs, n => countLoop acc xs (if acc x then n + 1 else n)
 
-/-- rule.py:1815-1854 (fail-fast context; the three ConstraintErrors are one error class here) -/
+/-- rule.py:1826-1867 (fail-fast context; the three ConstraintErrors are one error class here) -/
 def parseContains (acc : PyVal → Bool) (c : ContainsCfg) (v : PyVal) : M PyVal :=
   if !c.declared then pure v
   else do
@@ -79,10 +79,10 @@ def containsCfg (mro : List Body) : ContainsCfg :=
       | some (.val v _) => Py.truthy v
       | _ => false
     minC := match lookup mro "min_contains" with
-      | some (.val (.int m) _) => some m
+      | some (.val b _) => asInt? b          -- ints and bools (True is 1); other bound types are outside the model
       | _ => none
     maxC := match lookup mro "max_contains" with
-      | some (.val (.int m) _) => some m
+      | some (.val b _) => asInt? b
       | _ => none }
 
 /-! ### the parse of a value that already has the origin type -/
@@ -94,9 +94,13 @@ structure Decl where
   acc : PyVal → Bool                   -- does the `contains` type convert this item?
   post : PyVal → M PyVal               -- `cls.post_validate`
   pack : PyVal → M PyVal := pure       -- `cls.__origin__(value)`: the converted items packed into the origin container
-                                       -- (a set de-duplicates); only reached through the args parser (rule.py:1726-1733)
+                                       -- (a set de-duplicates); only reached through the args parser (rule.py:1733-1743,
+                                       -- guarded by `not __abstract__ and type(value) != __origin__`: the guard is part of `pack`)
+  pre : PyVal → M PyVal := pure        -- `cls.pre_validate` (rule.py:1706), runs before everything else
+  applied : Bool := false              -- `cls.__applied__` (set by `@utype.apply`, decorator.py:193): a value that is an
+                                       -- instance of the origin type is taken as it is (rule.py:1710-1715)
 
-/-- rule.py:1723-1733: the args parser converts the items, the result is packed into the origin container — **before**
+/-- rule.py:1733-1743: the args parser converts the items, the result is packed into the origin container — **before**
 any constraint runs, so that every constraint looks at the value that is going to be returned -/
 def applyArgs (d : Decl) (v : PyVal) : M PyVal :=
   match d.args with
@@ -105,12 +109,18 @@ def applyArgs (d : Decl) (v : PyVal) : M PyVal :=
     d.pack items
   | none => pure v
 
-/-- rule.py:1723-1760 for `isinstance(value, origin)`, default options (fail-fast) -/
-def parseTyped (P : Prims) (d : Decl) (v : PyVal) : M PyVal := do
+/-- rule.py:1699-1770 for `isinstance(value, origin)`, default options (fail-fast) -/
+def parseCore (P : Prims) (d : Decl) (v : PyVal) : M PyVal := do
   let v1 ← applyArgs d v
   let v2 ← validate P d.validators v1
   let v3 ← parseContains d.acc d.cont v2
   d.post v3
+
+/-- `Rule.parse` on a value of the origin type: `pre_validate` first; for a hidden (`@utype.apply`) type an instance of the
+origin is final — args, validators and contains are all skipped (by design of `apply`); otherwise the core above -/
+def parseTyped (P : Prims) (d : Decl) (v : PyVal) : M PyVal := do
+  let v ← d.pre v
+  if d.applied then d.post v else parseCore P d v
 
 /-- the declaration as the class statement produces it -/
 def declOf (mro : List Body) (args : Option (PyVal → M PyVal)) (acc : PyVal → Bool) (post : PyVal → M PyVal)
